@@ -12,8 +12,9 @@ fmd = pt.FileMetaData(row_groups=[], key_value_metadata=kv)
 before = [(k.key, k.value) for k in fmd.key_value_metadata if k.key != b"pandas"]
 try:
     consolidate_categories(fmd)
-    VIOLATED = [(k.key, k.value) for k in fmd.key_value_metadata if k.key != b"pandas"] != before
-    TEXT = "consolidate_categories returned; the other entries are " + ("changed" if VIOLATED else "unchanged")
+    after = [(k.key, k.value) for k in fmd.key_value_metadata if k.key != b"pandas"]
+    VIOLATED = after != before
+    TEXT = "consolidate_categories returned; user entries before %r, after %r" % ([k for k, _ in before], [k for k, _ in after])
 except Exception as ex:
     VIOLATED, TEXT = True, "consolidate_categories raised %s: %s on a FileMetaData with the user key b'sig\\\\xe2('" % (type(ex).__name__, ex)
 '''
@@ -32,7 +33,7 @@ def _report(ctx, refuted):
     for name, model, detail in refuted:
         fn = "api.ParquetFile.__init__" if name.startswith(("init.", "callers.")) else "writer." + name.split(".")[0] if name.startswith(("merge.", "write_common")) else "writer.consolidate_categories"
         confirmed, text, snippet = False, (detail or "")[:220], None
-        if name == "cats.total_on_arbitrary_keys":
+        if name in ("cats.total_on_arbitrary_keys", "cats.other_key_values_untouched"):
             try:
                 confirmed, text = replay_key_totality()
                 snippet = KEY_SNIPPET + "print(TEXT)\n"
